@@ -138,7 +138,115 @@ def expression_facts(F: Facts) -> None:
     F.define("prec_cmp", "cmp", cmpc)
 
 
-GENERATORS = [expression_facts]
+def type_facts(F: Facts) -> None:
+    import struct as _struct_mod
+
+    from dissect.cstruct import cstruct
+    from dissect.cstruct.types import LEB128, Char, Int, Packed, Void, Wchar
+
+    cs = cstruct()
+    rows = []
+    for name, t in cs.typedefs.items():
+        if isinstance(t, str):
+            rows.append(f"mkT {cstr(name)} (KAlias {cstr(t)}) None None {cstr('')} {cstr('')}")
+            continue
+        size = getattr(t, "size", None)
+        align = getattr(t, "alignment", None)
+        pc = ""
+        if isinstance(t, type) and issubclass(t, Packed):
+            pc = t.packchar
+            if pc in "bBhHiIqQ" and len(pc) == 1 and issubclass(t, int):
+                kind = f"(KPackedInt {cbool(pc.islower())})"
+                if _struct_mod.calcsize(pc) != size:
+                    F.bad(f"{name}: size != calcsize")
+            elif pc in "efd" and len(pc) == 1 and issubclass(t, float):
+                kind = "KPackedFloat"
+            else:
+                kind = "KOther"
+        elif isinstance(t, type) and issubclass(t, Int):
+            kind = f"(KInt {cbool(bool(t.signed))})"
+        elif isinstance(t, type) and issubclass(t, Char):
+            kind = "KChar"
+        elif isinstance(t, type) and issubclass(t, Wchar):
+            kind = "KWchar"
+        elif isinstance(t, type) and issubclass(t, LEB128):
+            kind = f"(KLeb {cbool(bool(t.signed))})"
+        elif isinstance(t, type) and issubclass(t, Void):
+            kind = "KVoid"
+        else:
+            kind = "KOther"
+        so = "None" if size is None else f"(Some {cz(size)})"
+        ao = "None" if align is None else f"(Some {cz(align)})"
+        rows.append(f"mkT {cstr(name)} {kind} {so} {ao} {cstr(pc)} {cstr(t.__name__)}")
+    F.define("type_table", "list tentry", clist(rows, "tentry"))
+
+    # resolve(): the loop bound
+    import dissect.cstruct.cstruct as csmod
+
+    cls = _class_node(inspect.getsource(csmod), "cstruct")
+    rm = _method(cls, "resolve")
+    bounds = set()
+    if rm is not None:
+        for n in ast.walk(rm):
+            if isinstance(n, ast.For) and isinstance(n.iter, ast.Call) and getattr(n.iter.func, "id", None) == "range" \
+                    and len(n.iter.args) == 1 and isinstance(n.iter.args[0], ast.Constant):
+                bounds.add(n.iter.args[0].value)
+    if len(bounds) != 1:
+        F.bad("resolve bound")
+    F.define("resolve_bound", "Z", cz(sorted(bounds)[0] if bounds else 0))
+    # default pointer type name resolves to an unsigned integer type of the platform width
+    F.define("default_pointer", "string", cstr(cs.pointer.__name__))
+
+
+def endian_facts(F: Facts) -> None:
+    import sys
+
+    from dissect.cstruct import utils
+    from dissect.cstruct.types.wchar import Wchar
+
+    def e_of(v: str) -> str:
+        return {"little": "LE", "big": "BE"}.get(v, "EUnknownEndian")
+
+    rows = []
+    for k, v in utils.ENDIANNESS_MAP.items():
+        e = "ENative" if k in ("@", "=") and v == sys.byteorder else e_of(v)
+        rows.append(cpair(cstr(k), e))
+    F.define("endianness_map", "list (string * endian)", clist(rows, "(string * endian)"))
+    rows = []
+    for k, v in Wchar.__encoding_map__.items():
+        if k in ("@", "=") and v == f"utf-16-{sys.byteorder[0]}e":
+            e = "ENative"
+        else:
+            e = {"utf-16-le": "LE", "utf-16-be": "BE"}.get(v, "EUnknownEndian")
+        rows.append(cpair(cstr(k), e))
+    F.define("wchar_encoding_map", "list (string * endian)", clist(rows, "(string * endian)"))
+
+    F.define("color_normal", "string", cstr(utils.COLOR_NORMAL))
+    F.define("printable_codes", "list Z", clist((cz(ord(c)) for c in sorted(set(utils.PRINTABLE))), "Z"))
+    # _hexdump: constants of its range() calls and of its comparisons with the column index
+    src = inspect.getsource(utils)
+    fn = None
+    for n in ast.parse(src).body:
+        if isinstance(n, ast.FunctionDef) and n.name == "_hexdump":
+            fn = n
+    widths, cols = set(), set()
+    if fn is None:
+        F.bad("_hexdump")
+    else:
+        for n in ast.walk(fn):
+            if isinstance(n, ast.Call) and getattr(n.func, "id", None) == "range":
+                for a in n.args:
+                    if isinstance(a, ast.Constant) and a.value != 0:
+                        widths.add(a.value)
+            if isinstance(n, ast.Compare) and isinstance(n.left, ast.Name) and n.left.id == "j" and isinstance(n.comparators[0], ast.Constant):
+                cols.add(n.comparators[0].value)
+    if len(widths) != 1:
+        F.bad(f"hexdump row width {widths}")
+    F.define("hexdump_row_width", "Z", cz(sorted(widths)[0] if widths else 0))
+    F.define("hexdump_special_columns", "list Z", clist((cz(c) for c in sorted(cols)), "Z"))
+
+
+GENERATORS = [expression_facts, type_facts, endian_facts]
 
 
 def render() -> str:
